@@ -9,6 +9,7 @@ import Ymq.Model.PolySpec
 import Ymq.Model.FInt
 import Ymq.Model.Kronecker
 import Ymq.Model.Crt
+import Ymq.Model.Ntt
 import Ymq.Model.PolyMul
 import Ymq.Model.PolySeries
 import Ymq.Model.PolyTree
@@ -124,17 +125,40 @@ def showMzp (m : Ymq.Crt.Mzp) : String :=
   s!"{m.w} {m.k} {m.plen} {showList m.primes} {showList m.crtPinv} {m.pprod} {showList m.crtP} " ++
   s!"{showList m.crtPModn} {showList m.pprodsModn} {rp}"
 
+/-- the flat word vector of the code as elements of `w` residues -/
+def chunkW (w : Nat) : Nat → List Nat → List (List Nat)
+  | 0, _ => []
+  | _ + 1, [] => []
+  | f + 1, l => l.take w :: chunkW w f (l.drop w)
+
+/-- `convolve_modn_ntt` through the word-level model (root tables, `from_mint`, `ntt_inplace`, `_crt`)
+up to this size; beyond it the driver answers with the specification model -/
+def NTT_MODEL_MAX : Nat := 1024
+
 def handlePolyFft : Handler
   | "pf_convolve" :: n :: size :: offset :: reslen :: p :: q :: rest => do
     let n ← parseNat n; let size ← parseNat size; let offset ← parseNat offset
     let reslen ← parseNat reslen
     let p ← parsePoly n p; let q ← parsePoly n q
     showSel n (convolve n size offset reslen p q) rest
-  | "pf_convolve_ntt" :: n :: _logk :: size :: offset :: reslen :: p :: q :: rest => do
+  | "pf_convolve_ntt" :: n :: logk :: size :: offset :: reslen :: p :: q :: rest => do
     let n ← parseNat n; let size ← parseNat size; let offset ← parseNat offset
-    let reslen ← parseNat reslen
+    let reslen ← parseNat reslen; let logk ← parseNat logk
     let p ← parsePoly n p; let q ← parsePoly n q
-    showSel n (convolve n size offset reslen p q) rest
+    if size ≤ NTT_MODEL_MAX ∧ logk ≤ 13 ∧ 0 < size then
+      -- mechanism model on the Montgomery residues held in the MInts
+      let (_, r, ri) ← mont n
+      match Ymq.Crt.new n logk with
+      | none => some "panic"
+      | some m =>
+        match Ymq.Crt.rootsPacked m with
+        | none => some "panic"
+        | some rts =>
+          let words (a : Array Nat) : List (List Nat) := (toMont n r a).toList.map (Ymq.Limbs.ofNat 8)
+          match Ymq.Crt.convolveNtt m rts ri size (words p) (words q) reslen offset with
+          | none => some "panic"
+          | some res => showSel n (ofMont n ri res.toArray) rest
+    else showSel n (convolve n size offset reslen p q) rest
   | ["pf_kron", n, size, offset, reslen, p, q] => do
     let n ← parseNat n; let size ← parseNat size; let offset ← parseNat offset
     let reslen ← parseNat reslen
@@ -225,6 +249,29 @@ def handlePolyFft : Handler
         match Ymq.Crt.redc m ri xs with
         | none => "panic"
         | some v => toString v)
+  | ["mzp_roots", n, logk, log] => do
+    let n ← parseNat n; let logk ← parseNat logk; let log ← parseNat log
+    some (match Ymq.Crt.new n logk with
+      | none => "panic"
+      | some m =>
+        match Ymq.Crt.rootsPacked m with
+        | none => "panic"
+        | some rts =>
+          match rts[log]? with
+          | none => "panic"
+          | some l => showList l.flatten)
+  | ["mzp_ntt", n, logk, k, fwd, v] => do
+    let n ← parseNat n; let logk ← parseNat logk; let k ← parseNat k; let v ← parseNatList v
+    let fwd := fwd = "true" || fwd = "1"
+    some (match Ymq.Crt.new n logk with
+      | none => "panic"
+      | some m =>
+        match Ymq.Crt.rootsPacked m with
+        | none => "panic"
+        | some rts =>
+          match Ymq.Crt.nttInplace m rts k (chunkW m.w v.length v) 0 fwd with
+          | none => "panic"
+          | some l => showList l.flatten)
   | op :: nn :: rest =>
     if op.startsWith "fint_" then do
       let nn ← parseNat nn
